@@ -17,8 +17,10 @@ REGISTRATION = {
             "every history of load / forward / shift / stop-trim / release operations for every configuration "
             "when the failure path of ShiftCacheSlot clears the sequence (repaired variant); slot exclusivity; "
             "soundness of the reused prefix; what Forward exposes equals what an empty cache exposes for the "
-            "effective input. For the pinned failure path (Remove(id,0,-1)) the invariant is proved under the "
-            "guard that no shift fails, with a Lean-checked counterexample otherwise (finding F3). The model is "
+            "effective input (also at token level for the scripted model). The reset value extracted from the tree "
+            "is MaxInt32 (F3 fixed in f8dfba76a), so the full-strength invariant is instantiated for the tree "
+            "(Tie.C07.tree_coherent_invariant); for the formerly pinned Remove(id,0,-1) the invariant is proved "
+            "under the guard that no shift fails, with a Lean-checked counterexample otherwise. The model is "
             "compared event by event with the REAL NewSequence/LoadCacheSlot/processBatch/Causal (fake eager "
             "backend, scripted model whose logits are a function of exactly the exposed key rows), and every "
             "clause is also evaluated directly on the real cache (L2).",
@@ -26,7 +28,7 @@ REGISTRATION = {
     "note": COMMON_NOTE + "Modelled, not verified: cell placement in kvcache.Causal (findStartLoc is modelled, "
             "the layout after a defrag is taken from the real cache; C06 owns it), sliding-window caches "
             "(CanResume is a free parameter of the theorems, SWA eviction is not modelled), multimodal inputs / "
-            "SameBatch (text inputs only), the HTTP layer (the slot-loading block of completion is replayed by "
+            "SameBatch (text inputs only), which FindStop variant the tree has (probed on the real function; C14 owns it), the HTTP layer (the slot-loading block of completion is replayed by "
             "the driver), sampling beyond greedy. runner/llamarunner/cache.go: only its pure functions "
             "(findLongestCacheSlot, findBestCacheSlot, countCommonPrefix, ShiftDiscard) are tied; its KV cache "
             "is llama.cpp's C++ (modelled, not verified). Panics are outside the property (F22: "
@@ -43,9 +45,13 @@ THEOREMS = [
     "OllamaVerif.C07.coherent_invariant_partial",
     "OllamaVerif.C07.forward_exposes",
     "OllamaVerif.C07.fresh_equiv",
+    "OllamaVerif.C07.nextTok_perm",
+    "OllamaVerif.C07.fresh_equiv_tokens",
     "OllamaVerif.C07.coherent_init",
     "OllamaVerif.C07.F3_pinned_reset_leaves_stale_entries",
     "OllamaVerif.Tie.C07.tree_reset_end_known",
+    "OllamaVerif.Tie.C07.tree_reset_end_repaired",
+    "OllamaVerif.Tie.C07.tree_coherent_invariant",
     "OllamaVerif.Tie.C07.tree_trace",
 ]
 OVERLAY = {
